@@ -24,16 +24,17 @@ Inductive ostep :=
 | ORun (now : Z) (fe : fetch) (fl : faults) (post : obs) (out : N) (nrev : N) (renames : list N)
   (* the process died after [k] of the previous run's replacements; restarted with [cfg'] *)
 | ORollback (k : nat) (cfg' : list key) (post : obs)
-  (* NewResolver on the same directory with config [cfg'] *)
-| ORestart (cfg' : list key) (post : obs).
+  (* NewResolver on the same directory with config [cfg']; [tr] = how the tombstone file read at
+     start-up (0 ok, 1 corrupt, 2 unreadable) *)
+| ORestart (cfg' : list key) (tr : N) (post : obs).
 
 Inductive case :=
   (* key table (material, flags, tag); initial config; observation after NewResolver; steps *)
 | CHist (tbl : list (N * N * N)) (cfg : list key) (init : obs) (steps : list ostep)
 | CCheck (tbl : list (N * N * N)) (cfg : list key) (init : obs) (steps : list ostep)   (* correspondence only *)
 | CSpec (tbl : list (N * N * N)) (cfg : list key) (init : obs) (steps : list ostep)    (* specification only *)
-  (* restart window: config, decoded tombstones on disk, rootKeys right after NewResolver *)
-| CWindow (tbl : list (N * N * N)) (cfg : list key) (tombs : tmap) (live : list key).
+  (* restart window: config, decoded disk, how the tombstone file read, rootKeys right after NewResolver *)
+| CWindow (tbl : list (N * N * N)) (cfg : list key) (d : obs) (tr : N) (live : list key).
 
 (* short constructors for the driver *)
 Definition K (m f : N) : key := mk_key m f.
@@ -95,16 +96,17 @@ Fixpoint check_steps (tag : key -> N) (live cfg : list key) (d : disk)
       match prev with
       | None => false
       | Some (d0, r) =>
-          disk_eqb (apply_writes d0 (firstn k (r_writes r))) post && keys_eqb cfg' (o_live post) &&
+          disk_eqb (apply_writes d0 (firstn k (r_writes r))) post &&
+          keys_eqb (restart_live cfg' (disk_of post) TROk) (o_live post) &&
           check_steps tag (o_live post) cfg' (disk_of post) None rest
       end
-  | ORestart cfg' post :: rest =>
-      disk_eqb d post && keys_eqb cfg' (o_live post) &&
+  | ORestart cfg' tr post :: rest =>
+      disk_eqb d post && keys_eqb (restart_live cfg' d (tread_of_code tr)) (o_live post) &&
       check_steps tag (o_live post) cfg' (disk_of post) None rest
   end.
 
 Definition check_hist (tbl : list (N * N * N)) (cfg : list key) (init : obs) (steps : list ostep) : bool :=
-  keys_eqb cfg (o_live init) &&
+  keys_eqb (restart_live cfg (disk_of init) TROk) (o_live init) &&
   check_steps (tag_of tbl) (o_live init) cfg (disk_of init) None steps.
 
 (* -------------------------------------------------------------- spec_case *)
@@ -136,7 +138,8 @@ Definition trusted_pre (cfg : list key) (pre : obs) (fl : faults) : list key :=
               | None => o_live pre
               end in
   let dead := (match f_tread fl with TRUnreadable => [] | _ => tomb_mats (o_tomb pre) end)
-              ++ (if f_sread fl then [] else marker_mats (o_state pre)) in
+              ++ (if f_sread fl then [] else marker_mats (o_state pre))
+              ++ mats (filter (fun k => is_ksk k && is_rev k) cfg) in
   (* a configured key is merged only when the state holds nothing for it yet (an AddPend entry
      of the same key keeps it pending) *)
   let held := match (if f_sread fl then None else o_state pre) with
@@ -276,7 +279,7 @@ Fixpoint spec_steps (ss : sstate) (cur : obs) (steps : list ostep) : bool :=
       let streak := if landed then ss_streak ss else ss_streak_before ss in
       let absent := if landed then ss_absent ss else ss_absent_before ss in
       spec_steps (mk_ss cfg' (mats (filter (fun k => negb (is_rev k)) cfg') ++ ss_record ss) streak (ss_prom ss) rev rev [] absent streak absent []) post rest
-  | ORestart cfg' post :: rest =>
+  | ORestart cfg' tr post :: rest =>
       spec_steps (mk_ss cfg' (mats (filter (fun k => negb (is_rev k)) cfg') ++ ss_record ss) (ss_streak ss) (ss_prom ss) (ss_rev ss) (ss_rev ss) [] (ss_absent ss) (ss_streak ss) (ss_absent ss) []) post rest
   end.
 
@@ -292,7 +295,7 @@ Definition check_case (c : case) : bool :=
   | CHist tbl cfg init steps => check_hist tbl cfg init steps
   | CCheck tbl cfg init steps => check_hist tbl cfg init steps
   | CSpec _ _ _ _ => true
-  | CWindow tbl cfg tombs live => keys_eqb cfg live     (* NewResolver: rootKeys := cfg.RootKeys *)
+  | CWindow tbl cfg d tr live => keys_eqb (restart_live cfg (disk_of d) (tread_of_code tr)) live
   end.
 
 Definition spec_case (c : case) : bool :=
@@ -300,6 +303,9 @@ Definition spec_case (c : case) : bool :=
   | CHist tbl cfg init steps => spec_hist (tag_of tbl) cfg init steps
   | CCheck _ _ _ _ => true
   | CSpec tbl cfg init steps => spec_hist (tag_of tbl) cfg init steps
-    (* a key recorded as revoked on disk is not a trust anchor after a restart *)
-  | CWindow tbl cfg tombs live => forallb (fun k => negb (mem (k_mat k) tombs)) live
+    (* a key recorded as revoked on disk (tombstone or StateRevoked marker) is not a trust anchor
+       after a restart, nothing but configured keys is, and an unreadable store fails closed *)
+  | CWindow tbl cfg d tr live =>
+      forallb (fun k => negb (memN (k_mat k) (recorded d)) && key_in k cfg) live &&
+      match tr with 0 => true | _ => is_nil live end
   end.
